@@ -99,6 +99,9 @@ def build_bm_shim(variant="native"):
   so = os.path.join(bdir, f"bm_{variant}_{os.getpid()}.so")
   cmd = ["g++", "-O2", "-std=c++17", "-shared", "-fPIC", "-I" + REPO, src, shim, "-o", so]
   if variant == "clmul":
+    # the source enables its carry-less-multiplication path with `#ifdef __CLMUL__`, a macro that neither gcc nor clang
+    # defines for -mpclmul (they define __PCLMUL__); it has to be defined explicitly to compile that variant at all
+    cmd.insert(1, "-D__CLMUL__")
     cmd.insert(1, "-mpclmul")
     cmd.insert(1, "-msse2")
   r = subprocess.run(cmd, capture_output=True, text=True)
